@@ -58,8 +58,17 @@ func (c *Check) depositInventory(rule string) {
 }
 
 // depositPairing: per committed path, Deposit delta ⇔ custody operation.
-func (c *Check) depositPairing(rule string) {
+func (c *Check) depositPairing(rule string, only ...*Func) {
 	units := c.persistUnits("0x02", "ServiceBinding")
+	if len(only) > 0 {
+		keep := map[*Func][]*PersistPath{}
+		for _, f := range only {
+			if pps, ok := units[f]; ok {
+				keep[f] = pps
+			}
+		}
+		units = keep
+	}
 	c.req(len(units) >= 1, rule, "units", token.NoPos, fmt.Sprintf("%d functions persist bindings", len(units)))
 	names := []string{}
 	for f, pps := range units {
@@ -78,6 +87,9 @@ func (c *Check) depositPairing(rule string) {
 		}
 	}
 	c.setInfo("binding_persist_units", names)
+	if len(only) > 0 {
+		return
+	}
 	// custody operations outside persisting functions
 	for _, f := range c.handFuncs("keeper", "service") {
 		if _, ok := units[f]; ok {
